@@ -184,21 +184,28 @@ package recordlayer
 //@ ensures input-unchanged: forall(0, len(buf), func(j int) bool { return buf[j] == old(buf[j]) })
 //@ end
 
+// ASSUMPTION (props/C18.json): the package variable ErrInvalidPacketLength (initialised from
+// internal/errors.ErrInvalidPacketLength) is non-nil. The engine does not track that initialiser, so
+// "accepted" / "rejected" are written so that a return of that variable counts as a rejection.
+//@ define ACC(e) (e == nil && !sameRef(e, ErrInvalidPacketLength))
+//@ define REJ(e) (e != nil || sameRef(e, ErrInvalidPacketLength))
+// (ACC only in antecedents, REJ only in consequents; "accepted" as a consequent is written e == nil)
+
 // RFC 9147 4: DTLSCiphertext = unified header (here always with S=1 and L=1 when sending) followed by
 // `length` bytes of encrypted record; 16 <= length <= 2^14 + 256.
 
 //@ func CiphertextRecord13.Marshal
-//@ ensures too-short: len(old(r.EncryptedRecord)) < 16 ==> result1 != nil
-//@ ensures too-long: len(old(r.EncryptedRecord)) > 16640 ==> result1 != nil
-//@ ensures cid-too-big: len(old(r.Header.ConnectionID)) > 255 ==> result1 != nil
+//@ ensures too-short: len(old(r.EncryptedRecord)) < 16 ==> REJ(result1)
+//@ ensures too-long: len(old(r.EncryptedRecord)) > 16640 ==> REJ(result1)
+//@ ensures cid-too-big: len(old(r.Header.ConnectionID)) > 255 ==> REJ(result1)
 //@ ensures ok: len(old(r.EncryptedRecord)) >= 16 && len(old(r.EncryptedRecord)) <= 16640 && len(old(r.Header.ConnectionID)) <= 255 ==> result1 == nil
-//@ ensures size: result1 == nil ==> len(result0) == 5 + len(r.Header.ConnectionID) + len(r.EncryptedRecord)
-//@ ensures layout-first: result1 == nil ==> result0[0]&0xE0 == 0x20 && UH_C(result0) == (len(r.Header.ConnectionID) > 0) && UH_S(result0) && UH_L(result0)
+//@ ensures size: ACC(result1) ==> len(result0) == 5 + len(r.Header.ConnectionID) + len(r.EncryptedRecord)
+//@ ensures layout-first: ACC(result1) ==> result0[0]&0xE0 == 0x20 && UH_C(result0) == (len(r.Header.ConnectionID) > 0) && UH_S(result0) && UH_L(result0)
 //@    && result0[0]&0x03 == r.Header.EpochLow&0x03
-//@ ensures layout-cid: result1 == nil ==> forall(0, len(r.Header.ConnectionID), func(i int) bool { return result0[1+i] == r.Header.ConnectionID[i] })
-//@ ensures layout-seq: result1 == nil ==> UH_BE16(result0, 1+len(r.Header.ConnectionID)) == r.Header.SequenceNumber
-//@ ensures layout-length: result1 == nil ==> int(UH_BE16(result0, 3+len(r.Header.ConnectionID))) == len(r.EncryptedRecord)
-//@ ensures layout-body: result1 == nil ==> forall(0, len(r.EncryptedRecord), func(i int) bool { return result0[5+len(r.Header.ConnectionID)+i] == r.EncryptedRecord[i] })
+//@ ensures layout-cid: ACC(result1) ==> forall(0, len(r.Header.ConnectionID), func(i int) bool { return result0[1+i] == r.Header.ConnectionID[i] })
+//@ ensures layout-seq: ACC(result1) ==> UH_BE16(result0, 1+len(r.Header.ConnectionID)) == r.Header.SequenceNumber
+//@ ensures layout-length: ACC(result1) ==> int(UH_BE16(result0, 3+len(r.Header.ConnectionID))) == len(r.EncryptedRecord)
+//@ ensures layout-body: ACC(result1) ==> forall(0, len(r.EncryptedRecord), func(i int) bool { return result0[5+len(r.Header.ConnectionID)+i] == r.EncryptedRecord[i] })
 //@ ensures frame: len(r.EncryptedRecord) == old(len(r.EncryptedRecord)) && len(r.Header.ConnectionID) == old(len(r.Header.ConnectionID))
 //@    && r.Header.SequenceNumber == old(r.Header.SequenceNumber) && r.Header.EpochLow == old(r.Header.EpochLow)
 //@ end
@@ -208,53 +215,66 @@ package recordlayer
 //@ define CR_LEN_OK(n) ((n) >= 16 && (n) <= 16640)
 
 //@ func CiphertextRecord13.Unmarshal
-//@ ensures empty: len(data) == 0 ==> result != nil
-//@ ensures bad-fixed-bits: len(data) >= 1 && data[0]&0xE0 != 0x20 ==> result != nil
-//@ ensures header-flags: result == nil ==> r.Header.SeqBit == UH_S(data) && r.Header.LengthBit == UH_L(data) && r.Header.EpochLow == data[0]&0x03
-//@ ensures header-cid: result == nil && UH_C(data) ==> len(r.Header.ConnectionID) == len(old(r.Header.ConnectionID))
-//@ ensures header-nocid: result == nil && !UH_C(data) ==> len(r.Header.ConnectionID) == 0
-//@ ensures size-sl: result == nil && UH_S(data) && UH_L(data) ==> len(data) == 5 + CR_CID(r, data) + len(r.EncryptedRecord)
-//@ ensures size-s: result == nil && UH_S(data) && !UH_L(data) ==> len(data) == 3 + CR_CID(r, data) + len(r.EncryptedRecord)
-//@ ensures size-l: result == nil && !UH_S(data) && UH_L(data) ==> len(data) == 4 + CR_CID(r, data) + len(r.EncryptedRecord)
-//@ ensures size-none: result == nil && !UH_S(data) && !UH_L(data) ==> len(data) == 2 + CR_CID(r, data) + len(r.EncryptedRecord)
-//@ ensures declared-len: result == nil && UH_L(data) ==> len(r.EncryptedRecord) == int(r.Header.Length)
-//@ ensures declared-len-sl: result == nil && UH_S(data) && UH_L(data) ==> len(r.EncryptedRecord) == int(UH_BE16(data, 3+CR_CID(r, data)))
-//@ ensures declared-len-l: result == nil && !UH_S(data) && UH_L(data) ==> len(r.EncryptedRecord) == int(UH_BE16(data, 2+CR_CID(r, data)))
-//@ ensures body-range: result == nil ==> CR_LEN_OK(len(r.EncryptedRecord))
-//@ ensures body: result == nil ==> forall(0, len(r.EncryptedRecord), func(i int) bool { return r.EncryptedRecord[i] == data[len(data)-len(r.EncryptedRecord)+i] })
-//@ ensures fresh: result == nil ==> !sameArray(r.EncryptedRecord, data)
+//@ ensures empty: len(data) == 0 ==> REJ(result)
+//@ ensures bad-fixed-bits: len(data) >= 1 && data[0]&0xE0 != 0x20 ==> REJ(result)
+//@ ensures header-flags: ACC(result) ==> r.Header.SeqBit == UH_S(data) && r.Header.LengthBit == UH_L(data) && r.Header.EpochLow == data[0]&0x03
+//@ ensures header-cid: ACC(result) && UH_C(data) ==> len(r.Header.ConnectionID) == len(old(r.Header.ConnectionID))
+//@ ensures header-nocid: ACC(result) && !UH_C(data) ==> len(r.Header.ConnectionID) == 0
+//@ ensures size-sl: ACC(result) && UH_S(data) && UH_L(data) ==> len(data) == 5 + CR_CID(r, data) + len(r.EncryptedRecord)
+//@ ensures size-s: ACC(result) && UH_S(data) && !UH_L(data) ==> len(data) == 3 + CR_CID(r, data) + len(r.EncryptedRecord)
+//@ ensures size-l: ACC(result) && !UH_S(data) && UH_L(data) ==> len(data) == 4 + CR_CID(r, data) + len(r.EncryptedRecord)
+//@ ensures size-none: ACC(result) && !UH_S(data) && !UH_L(data) ==> len(data) == 2 + CR_CID(r, data) + len(r.EncryptedRecord)
+//@ ensures declared-len: ACC(result) && UH_L(data) ==> len(r.EncryptedRecord) == int(r.Header.Length)
+//@ ensures declared-len-sl: ACC(result) && UH_S(data) && UH_L(data) ==> len(r.EncryptedRecord) == int(UH_BE16(data, 3+CR_CID(r, data)))
+//@ ensures declared-len-l: ACC(result) && !UH_S(data) && UH_L(data) ==> len(r.EncryptedRecord) == int(UH_BE16(data, 2+CR_CID(r, data)))
+//@ ensures body-range: ACC(result) ==> CR_LEN_OK(len(r.EncryptedRecord))
+//@ ensures body: ACC(result) ==> forall(0, len(r.EncryptedRecord), func(i int) bool { return r.EncryptedRecord[i] == data[len(data)-len(r.EncryptedRecord)+i] })
+//@ ensures fresh: ACC(result) ==> !sameArray(r.EncryptedRecord, data)
 //@ ensures input-unchanged: forall(0, len(data), func(i int) bool { return data[i] == old(data[i]) })
 //@ end
 
 // RFC 9147 4: DTLSPlaintext = type(1) legacy_record_version(2) epoch(2) sequence_number(6) length(2) fragment[length];
 // epoch 0 only, length <= 2^14, types alert(21), handshake(22), ack(26).
+// Input bytes are read in the entry state (old): the content decoders are summarised by a havoc that may
+// include byte memory. For handshake content the engine havocs everything the (large, uncontracted)
+// Handshake.Unmarshal may write, including r.Header, so header clauses are split by content type.
+
+//@ define D(i) old(data[i])
+//@ define DLEN16(o) (int(old(data[o]))<<8 | int(old(data[(o)+1])))
 
 //@ func PlaintextRecord13.Unmarshal
-//@ ensures short: len(data) < 13 ==> result != nil
-//@ ensures bad-epoch: len(data) >= 13 && (data[3] != 0 || data[4] != 0) ==> result != nil
-//@ ensures truncated: len(data) >= 13 && len(data) - 13 < REC_LEN16(data, 11) ==> result != nil
-//@ ensures trailing: len(data) >= 13 && len(data) - 13 > REC_LEN16(data, 11) ==> result != nil
-//@ ensures too-long: len(data) >= 13 && REC_LEN16(data, 11) > 16384 ==> result != nil
-//@ ensures bad-type: len(data) >= 13 && data[0] != 21 && data[0] != 22 && data[0] != 26 ==> result != nil
-//@ ensures header: result == nil ==> r.Header.ContentType == protocol.ContentType(data[0]) && r.Header.Version.Major == data[1] && r.Header.Version.Minor == data[2]
-//@    && r.Header.Epoch == 0 && int(r.Header.ContentLen) == REC_LEN16(data, 11) && r.Header.ConnectionID == nil
-//@ ensures header-seq: result == nil ==> r.Header.SequenceNumber == uint64(data[5])<<40 | uint64(data[6])<<32 | uint64(data[7])<<24 | uint64(data[8])<<16 | uint64(data[9])<<8 | uint64(data[10])
-//@ ensures declared-len: result == nil ==> len(data) == 13 + int(r.Header.ContentLen)
-//@ ensures alert-content: result == nil && data[0] == 21 ==> typeIs(r.Content, "*github.com/pion/dtls/v3/pkg/protocol/alert.Alert") && len(data) == 15
-//@    && r.Content.(*alert.Alert).Level == alert.Level(data[13]) && r.Content.(*alert.Alert).Description == alert.Description(data[14])
+//@ ensures short: len(data) < 13 ==> REJ(result)
+//@ ensures bad-epoch: len(data) >= 13 && (D(3) != 0 || D(4) != 0) ==> REJ(result)
+//@ ensures truncated: len(data) >= 13 && len(data) - 13 < DLEN16(11) ==> REJ(result)
+//@ ensures trailing: len(data) >= 13 && len(data) - 13 > DLEN16(11) ==> REJ(result)
+//@ ensures too-long: len(data) >= 13 && DLEN16(11) > 16384 ==> REJ(result)
+//@ ensures bad-type: len(data) >= 13 && D(0) != 21 && D(0) != 22 && D(0) != 26 ==> REJ(result)
+//@ ensures declared-len: ACC(result) ==> len(data) == 13 + DLEN16(11)
+//@ ensures header-nonhs: ACC(result) && D(0) != 22 ==> r.Header.ContentType == protocol.ContentType(D(0)) && r.Header.Version.Major == D(1) && r.Header.Version.Minor == D(2)
+//@    && r.Header.Epoch == 0 && int(r.Header.ContentLen) == DLEN16(11) && r.Header.ConnectionID == nil
+//@ ensures header-hs: ACC(result) && D(0) == 22 ==> r.Header.ContentType == protocol.ContentType(D(0)) && r.Header.Version.Major == D(1) && r.Header.Version.Minor == D(2)
+//@    && r.Header.Epoch == 0 && int(r.Header.ContentLen) == DLEN16(11) && r.Header.ConnectionID == nil
+//@ ensures header-seq-nonhs: ACC(result) && D(0) != 22 ==> r.Header.SequenceNumber == uint64(D(5))<<40 | uint64(D(6))<<32 | uint64(D(7))<<24 | uint64(D(8))<<16 | uint64(D(9))<<8 | uint64(D(10))
+//@ ensures alert-content: ACC(result) && D(0) == 21 ==> typeIs(r.Content, "*github.com/pion/dtls/v3/pkg/protocol/alert.Alert") && len(data) == 15
+//@    && r.Content.(*alert.Alert).Level == alert.Level(D(13)) && r.Content.(*alert.Alert).Description == alert.Description(D(14))
 //@ end
 
 // RFC 6347 4.1: DTLSPlaintext/DTLSCiphertext = 13 header bytes and `length` bytes of fragment.
+// declared lengths honoured: a record whose buffer is shorter than 13 + length is truncated and must be
+// rejected; bytes after 13 + length must not end up in the content.
 
 //@ func RecordLayer.Unmarshal
 //@ ensures short: len(data) < 13 ==> result != nil
-//@ ensures truncated: len(data) >= 13 && len(data) - 13 < REC_LEN16(data, 11) ==> result != nil
-//@ ensures bad-type: len(data) >= 13 && data[0] != 20 && data[0] != 21 && data[0] != 22 && data[0] != 23 && data[0] != 26 && data[0] != 27 ==> result != nil
-//@ ensures header: result == nil ==> r.Header.ContentType == protocol.ContentType(data[0]) && r.Header.Version.Major == data[1] && r.Header.Version.Minor == data[2]
-//@    && r.Header.Epoch == uint16(data[3])<<8 | uint16(data[4]) && int(r.Header.ContentLen) == REC_LEN16(data, 11)
-//@ ensures appdata-declared-len: result == nil && data[0] == 23 ==> typeIs(r.Content, "*github.com/pion/dtls/v3/pkg/protocol.ApplicationData")
-//@    && len(r.Content.(*protocol.ApplicationData).Data) == int(r.Header.ContentLen)
-//@ ensures appdata-content: result == nil && data[0] == 23 ==> forall(0, int(r.Header.ContentLen), func(i int) bool { return r.Content.(*protocol.ApplicationData).Data[i] == data[13+i] })
-//@ ensures alert-content: result == nil && data[0] == 21 ==> typeIs(r.Content, "*github.com/pion/dtls/v3/pkg/protocol/alert.Alert")
-//@    && r.Content.(*alert.Alert).Level == alert.Level(data[13]) && r.Content.(*alert.Alert).Description == alert.Description(data[14])
+//@ ensures truncated: len(data) >= 13 && len(data) - 13 < DLEN16(11) ==> result != nil
+//@ ensures bad-type: len(data) >= 13 && D(0) != 20 && D(0) != 21 && D(0) != 22 && D(0) != 23 && D(0) != 26 && D(0) != 27 ==> result != nil
+//@ ensures header-nonhs: result == nil && D(0) != 22 ==> r.Header.ContentType == protocol.ContentType(D(0)) && r.Header.Version.Major == D(1) && r.Header.Version.Minor == D(2)
+//@    && r.Header.Epoch == uint16(D(3))<<8 | uint16(D(4)) && int(r.Header.ContentLen) == DLEN16(11)
+//@ ensures header-hs: result == nil && D(0) == 22 ==> r.Header.ContentType == protocol.ContentType(D(0)) && r.Header.Version.Major == D(1) && r.Header.Version.Minor == D(2)
+//@    && r.Header.Epoch == uint16(D(3))<<8 | uint16(D(4)) && int(r.Header.ContentLen) == DLEN16(11)
+//@ ensures appdata-type: result == nil && D(0) == 23 ==> typeIs(r.Content, "*github.com/pion/dtls/v3/pkg/protocol.ApplicationData")
+//@ ensures appdata-declared-len: result == nil && D(0) == 23 ==> len(r.Content.(*protocol.ApplicationData).Data) == DLEN16(11)
+//@ ensures appdata-content: result == nil && D(0) == 23 && len(data) - 13 >= DLEN16(11) ==> len(r.Content.(*protocol.ApplicationData).Data) >= DLEN16(11)
+//@    && forall(0, DLEN16(11), func(i int) bool { return r.Content.(*protocol.ApplicationData).Data[i] == old(data[13+i]) })
+//@ ensures alert-content: result == nil && D(0) == 21 ==> typeIs(r.Content, "*github.com/pion/dtls/v3/pkg/protocol/alert.Alert")
+//@    && r.Content.(*alert.Alert).Level == alert.Level(D(13)) && r.Content.(*alert.Alert).Description == alert.Description(D(14))
 //@ end
